@@ -1090,3 +1090,163 @@ Section ReachDb.
     rewrite db_get_newest by assumption. symmetry. apply newest_ext; auto. intros x. symmetry. apply Hent.
   Qed.
 End ReachDb.
+
+(* ---------------------------------------------------------------------------------------- *)
+(* version filtering: no lookup ever returns a version above the read timestamp (any tree)   *)
+Lemma scan_ver_le cs ts best : Forall (ver_le ts) cs -> ver_le ts best -> ver_le ts (scan cs ts best).
+Proof.
+  revert best. induction cs as [|c cs IH]; intros best HF Hb; cbn [scan]; auto.
+  inversion HF as [|? ? Hc HF']; subst. destruct c as [e|]; auto.
+  destruct (e_ver e =? ts) eqn:E; [apply N.eqb_eq in E; cbn; lia|].
+  apply IH; auto. now apply better_ver_le.
+Qed.
+
+Theorem db_get_ver_le d k ts e : db_get d k ts = Some e -> e_ver e <= ts.
+Proof.
+  intros H. pose proof (scan_ver_le (cands d k ts) ts None (ver_le_cands d k ts) I) as V.
+  unfold db_get in H. rewrite H in V. exact V.
+Qed.
+
+(* ---------------------------------------------------------------------------------------- *)
+(* base histories (labels of Sys.v only): nothing is ever rejected after timestamp allocation *)
+Definition onbase (P : op -> Prop) (o : xop) : Prop :=
+  match o with Base o' => P o' | _ => False end.
+
+Lemma reach_base P fx s0 s L : x_blocked s0 = false -> xreach (onbase P) fx s0 s L ->
+  x_blocked s = false /\ Forall (fun c => cr_applied c = true) L.
+Proof.
+  intros Hb. induction 1 as [|s L o s' R IH Po St]; [split; [exact Hb|constructor]|].
+  destruct IH as [IHb IHl]. destruct o as [o|on|t cts]; try contradiction.
+  destruct s as [b bl]. cbn [x_blocked] in IHb. subst bl. rewrite xstep_base in St. rewrite xcommit_rec_base.
+  apply lift_ok in St. destruct St as (s1 & St & ->). split; [reflexivity|]. apply Forall_app. split; auto.
+  unfold commit_rec. destruct o; try constructor.
+  destruct (lookup (s_txns b) t) as [x|]; [|constructor].
+  destruct (txn_commit b t x cts) as [[r' ts] s2]. destruct (_ && _); constructor; auto.
+Qed.
+
+Lemma reach_base_init P fx m d nk nl next s L :
+  xreach (onbase P) fx (init_xsys m d nk nl next) s L ->
+  x_blocked s = false /\ Forall (fun c => cr_applied c = true) L.
+Proof. apply reach_base. reflexivity. Qed.
+
+Lemma exec_reach (P : op -> Prop) fx m d nk nl next ops s :
+  Forall P ops -> exec (init_sys m d nk nl next) ops 0 = (None, s) ->
+  xreach (onbase P) fx (init_xsys m d nk nl next) (mkX s false) (history (init_sys m d nk nl next) ops).
+Proof.
+  intros HF H. apply exec_history in H. eapply run_reach; [|exact H].
+  apply (Forall_map_base P); auto.
+Qed.
+
+Definition any_op (o : op) : Prop := True.
+Lemma Forall_any_op ops : Forall any_op ops.
+Proof. induction ops; constructor; auto. exact I. Qed.
+
+Lemma logged_applied fx c : cr_applied c = true -> logged fx c = true.
+Proof. unfold logged. now intros ->. Qed.
+
+Section Main.
+  Variables (m : bool) (nk : N) (nl : nat) (next : N).
+
+  (* ---- C02 ---- *)
+  (* Commit reports ErrConflict iff a logged commit above the read timestamp wrote a key the
+     transaction recorded as read (x-model: any fx, any labels) *)
+  Theorem x_conflict_iff fx P s L t x cts :
+    xreach P fx (init_xsys m true nk nl next) s L ->
+    x_pend x <> [] -> x_done x = false ->
+    (fst (fst (txn_commit (x_base s) t x cts)) = 1 <->
+     exists c k, In c L /\ logged fx c = true /\ x_read x < cr_cts c /\ In k (x_reads x) /\ In k (cr_keys c)).
+  Proof.
+    intros R Hp Hd. destruct (reach_flags _ _ _ _ _ _ _ _ _ R) as [_ Fd].
+    rewrite <- (conflict_log_iff fx m true nk nl next P s L x eq_refl R).
+    destruct (txn_commit_cases (x_base s) t x cts)
+      as [(Ep & E)|[(Ep & Ed & E)|[(Ep & Ed & Ec & E)|(Ep & Ed & Ec & E)]]]; rewrite E; cbn [fst];
+      try congruence; rewrite Fd in Ec; cbn [andb] in Ec; rewrite Ec; split; congruence.
+  Qed.
+
+  Theorem conflict_iff ops s t x cts :
+    exec (init_sys m true nk nl next) ops 0 = (None, s) ->
+    x_pend x <> [] -> x_done x = false ->
+    (fst (fst (txn_commit s t x cts)) = 1 <->
+     exists c k, In c (history (init_sys m true nk nl next) ops) /\
+                 x_read x < cr_cts c /\ In k (x_reads x) /\ In k (cr_keys c)).
+  Proof.
+    intros H Hp Hd. pose proof (exec_reach any_op false m true nk nl next ops s (Forall_any_op ops) H) as R.
+    destruct (reach_base_init _ _ _ _ _ _ _ _ _ R) as [_ Hap]. rewrite Forall_forall in Hap.
+    rewrite (x_conflict_iff false _ _ _ t x cts R Hp Hd). cbn [x_base].
+    split; intros (c & k & Hc & A); exists c, k; [tauto|]. split; auto. split; [|tauto]. apply logged_applied; auto.
+  Qed.
+
+  (* the log is the history: every record is a successful commit with a non-empty write set, its
+     conflict keys are exactly the keys of the entries it wrote, the conflict log holds exactly the
+     records (the model never prunes: see has_conflict_cleanup) and the applied writes are exactly
+     the records' entries in commit order *)
+  Theorem log_is_history ops s :
+    exec (init_sys m true nk nl next) ops 0 = (None, s) ->
+    let L := history (init_sys m true nk nl next) ops in
+    s_committed s = map ckey L /\ s_writes s = log_writes L /\
+    Forall (fun c => cr_applied c = true) L /\ Forall rec_ok L.
+  Proof.
+    intros H L. pose proof (exec_reach any_op false m true nk nl next ops s (Forall_any_op ops) H) as R.
+    destruct (reach_base_init _ _ _ _ _ _ _ _ _ R) as [_ Hap].
+    destruct (reach_log _ _ _ _ _ _ _ _ _ R) as [Ec Ew]. cbn [x_base] in *. fold L in Ec, Ew, Hap.
+    repeat split; auto.
+    - rewrite Ec. f_equal. clear -Hap. induction L as [|c L IH]; auto. inversion Hap; subst. cbn [filter].
+      rewrite logged_applied by assumption. f_equal. auto.
+    - eapply reach_rec_ok; eauto.
+  Qed.
+
+  (* a rejected Commit (ErrConflict, or a discarded transaction) changes nothing but the
+     transaction's own `discarded` flag *)
+  Theorem rejected_no_trace s t x cts :
+    fst (fst (txn_commit s t x cts)) <> 0 ->
+    let s' := snd (txn_commit s t x cts) in
+    s_db s' = s_db s /\ s_next s' = s_next s /\ s_committed s' = s_committed s /\ s_writes s' = s_writes s /\
+    s_discard s' = s_discard s /\
+    (forall t', t' <> t -> lookup (s_txns s') t' = lookup (s_txns s) t') /\
+    (s_txns s' = s_txns s \/ lookup (s_txns s') t = Some (discard_txn x)).
+  Proof.
+    destruct (txn_commit_cases s t x cts)
+      as [(Ep & E)|[(Ep & Ed & E)|[(Ep & Ed & Ec & E)|(Ep & Ed & Ec & E)]]]; rewrite E; cbn [fst snd]; try congruence;
+      intros _; repeat split; auto.
+    - intros t' Hne. cbn [set_txn s_txns]. rewrite lookup_update. destruct (t =? t') eqn:E2; auto.
+      apply N.eqb_eq in E2. congruence.
+    - right. cbn [set_txn s_txns]. rewrite lookup_update, N.eqb_refl. reflexivity.
+  Qed.
+
+  (* no conflict without a real overlap: a successful commit (its entries are in the applied
+     writes) above the read timestamp wrote a key that was read *)
+  Theorem x_no_false_conflict fx s L t x cts :
+    xreach xop_api fx (init_xsys m true nk nl next) s L ->
+    (forall c, In c L -> logged fx c = true -> cr_applied c = true) ->
+    x_pend x <> [] -> x_done x = false ->
+    fst (fst (txn_commit (x_base s) t x cts)) = 1 ->
+    exists c e, In c L /\ cr_applied c = true /\ In e (cr_wr c) /\ In e (s_writes (x_base s)) /\
+                In (e_key e) (x_reads x) /\ x_read x < e_ver e.
+  Proof.
+    intros R Hnr Hp Hd Hc. apply (x_conflict_iff fx _ _ _ t x cts R Hp Hd) in Hc.
+    destruct Hc as (c & k & Hin & Hlg & Hlt & Hr & Hw).
+    pose proof (reach_rec_ok _ _ _ _ _ _ _ _ _ R) as Hok. pose proof (reach_rec_api _ _ _ _ _ _ _ _ R) as Hapi.
+    rewrite Forall_forall in Hok, Hapi. destruct (Hok _ Hin) as (_ & K2 & _). destruct (Hapi _ Hin) as [V _].
+    destruct (K2 _ Hw) as (e & He & Hk). exists c, e. specialize (Hnr _ Hin Hlg).
+    destruct (reach_log _ _ _ _ _ _ _ _ _ R) as [_ Ew]. repeat split; auto.
+    - rewrite Ew. apply log_writes_in. eauto.
+    - now rewrite Hk.
+    - now rewrite (V _ He).
+  Qed.
+
+  Theorem no_false_conflict ops s t x cts :
+    Forall op_api ops ->
+    exec (init_sys m true nk nl next) ops 0 = (None, s) ->
+    x_pend x <> [] -> x_done x = false ->
+    fst (fst (txn_commit s t x cts)) = 1 ->
+    exists c e, In c (history (init_sys m true nk nl next) ops) /\ In e (cr_wr c) /\ In e (s_writes s) /\
+                In (e_key e) (x_reads x) /\ x_read x < e_ver e.
+  Proof.
+    intros Hapi H Hp Hd Hc. pose proof (exec_reach op_api false m true nk nl next ops s Hapi H) as R.
+    destruct (reach_base_init _ _ _ _ _ _ _ _ _ R) as [_ Hap]. rewrite Forall_forall in Hap.
+    assert (R': xreach xop_api false (init_xsys m true nk nl next) (mkX s false) (history (init_sys m true nk nl next) ops)).
+    { eapply xreach_mono; [|exact R]. intros [o| |]; cbn; auto. }
+    destruct (x_no_false_conflict false _ _ t x cts R' (fun c Hc _ => Hap c Hc) Hp Hd Hc) as (c & e & A).
+    exists c, e. tauto.
+  Qed.
+End Main.
